@@ -783,6 +783,21 @@ def mini_members(model_version: str) -> Dict[str, bytes]:
     return out
 
 
+def dv_members() -> Dict[str, bytes]:
+    """A minimal database of its own for DIAG-VARIABLES: one container, one BASE-VARIANT with one service and two DIAG-VARIABLEs (the first
+    with OID, IS-READ-BEFORE-WRITE, SW-VARIABLES, COMM-RELATIONS by reference and by short name, SDGS). No VARIABLE-GROUPS: VariableGroup.from_et
+    raises TypeError for every VARIABLE-GROUP element, so the parser cannot read them."""
+    s = Sel(set(all_features()) - {"dv_base", "dv_attrs", "dv_sw_variables", "dv_sdgs", "dv_comm_ref"})
+    layer_ = dict(type="BASE-VARIANT", name="dvb", long_name="base variant with diag variables",
+                  dops=[dict(name="d_u8", dct=std(8))],
+                  msgs=[dict(kind="REQUEST", name="d_rq", params=[cc("sid", 0x22, 0), dict(t="VALUE", name="v", dop="d_u8", byte=1)])],
+                  svcs=[dict(name="dv_svc", request="d_rq")],
+                  variant_xml=diag_variables("dvb", s, True, "dv_svc"))
+    out: Dict[str, bytes] = {"DV.odx-d": container(dict(name="DV", long_name="diag variable container", layers=[layer_])).encode("utf-8")}
+    out["index.xml"] = index_xml("diag_variables").encode("utf-8")
+    return out
+
+
 def aux_files() -> Dict[str, bytes]:
     """Auxiliary files referenced by PROG-CODE / LIBRARY elements (the loader requires them to exist)."""
     return {"code.java": b"class Code {}\n", "job.jar": b"PK-not-really-a-jar\n", "lib1.jar": b"PK-library\n"}
